@@ -297,6 +297,30 @@ def t_dealias_boundary(name, D, N, frac):
                 _cmp(got_v, ref, f"filter_vmap over dealiasing_fraction, member {frac} vs eager"))
 
 
+def t_difficulty_big_int(N, ncoef, D):
+    """Difficulty steppers built under filter_vmap / filter_jit from a traced difficulty of high order on a fine grid: the conversion factor
+    N^j 2^(j-1) D is a Python int beyond the machine integer range (repaired defect: OverflowError under tracing, eager fine)"""
+    jax, jnp, eqx, ex = _jx()
+    import exponax.stepper.generic as G
+    mk = lambda g: G.DifficultyLinearStepper(D, N, linear_difficulties=(0.0,) * (ncoef - 1) + (g,))
+    sign = -1.0 if ((ncoef - 1) // 2) % 2 == 0 else 1.0           # damping sign of the highest (even) order
+    vals = [0.5 * sign, 2.0 * sign]
+    u = _state(D, N, 1, 5)
+    try:
+        steppers = eqx.filter_vmap(mk)(jnp.asarray(vals))
+        got = np.asarray(eqx.filter_vmap(lambda st: st(u))(steppers))
+        gj = [np.asarray(eqx.filter_jit(lambda g, w: mk(g)(w))(jnp.asarray(v), u)) for v in vals]
+    except OverflowError as e:
+        return False, f"DifficultyLinearStepper(D={D}, N={N}, {ncoef} difficulties) cannot be built from a traced difficulty: OverflowError {str(e)[:120]}"
+    for m, v in enumerate(vals):
+        ref = np.asarray(mk(v)(u))
+        r = _all(_cmp(got[m], ref, f"filter_vmap over the order-{ncoef - 1} difficulty, member {v} vs eager"),
+                 _cmp(gj[m], ref, f"filter_jit-built stepper with traced order-{ncoef - 1} difficulty {v} vs eager"))
+        if not r[0]:
+            return r
+    return True, ""
+
+
 def t_ctor_single(name, D, N, order, param, index, values, base, seed, light=False):
     """filter_vmap / filter_jit over ONE constructor argument (the others stay Python numbers) vs eager;
     light: one step and the filter_vmap-built batch only"""
@@ -432,7 +456,7 @@ def t_family_rollout(name, D, N, order, n, B, seed):
                      "jit(rollout(batched family)) vs eager loops"))
 
 
-TESTS = dict(dealias_boundary=t_dealias_boundary, trace_call=t_trace_call, jit_step=t_jit_step, vmap_states=t_vmap_states, ctor_traced=t_ctor_traced, ctor_single=t_ctor_single,
+TESTS = dict(difficulty_big_int=t_difficulty_big_int, dealias_boundary=t_dealias_boundary, trace_call=t_trace_call, jit_step=t_jit_step, vmap_states=t_vmap_states, ctor_traced=t_ctor_traced, ctor_single=t_ctor_single,
              ctor_vector=t_ctor_vector, rollout_nesting=t_rollout_nesting, repeat_nesting=t_repeat_nesting, forced=t_forced,
              family_rollout=t_family_rollout)
 
@@ -567,6 +591,10 @@ def _witness(ctx):
     sel = _selection(ctx, deep)
     for p in FIXED_SINGLE + (FIXED_SINGLE_DEEP if deep else []):
         ctx.check("ctor_single", dict(p, seed=ctx.seed))
+    ctx.check("difficulty_big_int", dict(N=256, ncoef=9, D=1))
+    if deep:
+        ctx.check("difficulty_big_int", dict(N=512, ncoef=9, D=1))
+        ctx.check("difficulty_big_int", dict(N=64, ncoef=11, D=2))
     for nm, D, N in [("Burgers", 2, 6), ("KuramotoSivashinsky", 2, 7)] + ([("Burgers", 3, 6), ("KortewegDeVries", 2, 6), ("NavierStokesVorticity", 2, 7)] if deep else []):
         ctx.check("dealias_boundary", dict(name=nm, D=D, N=N, frac=2 / 3))
     first = {}
